@@ -251,16 +251,17 @@ bool ASTInterpreter::ViArithmetic(Cursor iter) {
   if (!val2.has_value()) {
     return false;
   }
-  const auto op1 = std::get<StructuredData>(val1.value()).E().Value();
-  const auto op2 = std::get<StructuredData>(val2.value()).E().Value();
+  // Note: unsigned arithmetic wraps around, signed overflow is undefined behaviour
+  const auto op1 = static_cast<uint32_t>(std::get<StructuredData>(val1.value()).E().Value());
+  const auto op2 = static_cast<uint32_t>(std::get<StructuredData>(val2.value()).E().Value());
   switch (iter->id) {
   default:
   case TokenID::PLUS:
-    return SetCurrent(Factory::Val(op1 + op2));
+    return SetCurrent(Factory::Val(static_cast<int32_t>(op1 + op2)));
   case TokenID::MINUS:
-    return SetCurrent(Factory::Val(op1 - op2));
+    return SetCurrent(Factory::Val(static_cast<int32_t>(op1 - op2)));
   case TokenID::MULTIPLY:
-    return SetCurrent(Factory::Val(op1 * op2));
+    return SetCurrent(Factory::Val(static_cast<int32_t>(op1 * op2)));
   }
 }
 
